@@ -334,9 +334,17 @@ class Run:
             out = "PendingRollbackError"
             self.recover(i, kind)
         except exc.InvalidRequestError as e:
-            # documented usage errors (e.g. a cascade reaching an instance that "has been deleted"); not a verdict
             out = "InvalidRequestError"
-            self.bump("probe:usage_error")
+            if isinstance(e, self.m["orm_exc"].ObjectDeletedError) or "has been deleted.  Use the make_transient" in str(e) or \
+                    ("Can not remove" in str(e) and "collection holds" in str(e)):
+                # the documented usage errors these workloads can run into (touching an object whose row the flush just deleted, a
+                # cascade reaching an instance that "has been deleted", a keyed collection asked to drop a member whose key another
+                # member took over); not a verdict
+                self.bump("probe:usage_error")
+            else:
+                # any other refusal ("Session is already flushing", "This session is in 'inactive' state", ...) means the session did
+                # not do the documented work
+                self.V("*", "unexpected_exception", "operation %s raised %s: %s" % (kind, type(e).__name__, str(e).split("\n")[0][:110]), op=i)
             self.recover(i, kind)
         except self.m["orm_exc"].FlushError as e:
             out = "FlushError"
@@ -1437,6 +1445,8 @@ class Run:
     def op_begin_nested(self, a1, a2):
         if len(self.sp_stack) >= 3:
             return "skip"
+        if self.session.new or self.session.dirty or self.session.deleted:
+            self.txn_flushed = True         # begin_nested() flushes
         self.session.begin_nested()
         snap = {"states": {e["label"]: (OS.state_of(e["obj"]), self.in_session(e["obj"])) for e in self.entries()},
                 "tables": self.probe(), "trans": self.session.get_nested_transaction()}
@@ -1493,7 +1503,7 @@ class Run:
         return False
 
     def op_close(self, a1, a2):
-        if self.session.new or self.session.dirty or self.session.deleted or self.txn_flushed or any(
+        if self.session.new or self.session.dirty or self.session.deleted or self.txn_flushed or self.sp_stack or any(
                 OS.state_of(e["obj"]) == "deleted" for e in self.entries()):
             return "skip"      # closing with work in flight is a rollback (detached objects would keep the rolled-back values);
             #                    objects in the 'deleted' state would be left in limbo
@@ -1682,7 +1692,16 @@ class Run:
         if self.session.new or self.session.dirty or self.session.deleted:
             if not self.cfg.get("autoflush", True):
                 return "skip"
-        self.session.refresh(e["obj"])
+        try:
+            self.session.refresh(e["obj"])
+        except self.m["exc"].InvalidRequestError as ex:
+            if "Could not refresh instance" not in str(ex):
+                raise
+            # documented: the row is gone (the autoflush refresh() starts with deleted the object as an orphan / by cascade)
+            if pk in self.probe()[self.tab_of(e["cls"])]:
+                self.V("C46", "refresh_failed_although_row_exists", "refresh() of %s #%s raised 'Could not refresh instance' although its row "
+                       "exists" % (e["cls"], pk))
+            raise self.m["orm_exc"].ObjectDeletedError(self.m["inspect"](e["obj"]))
         now = self.probe()
         self.check_obj_vs_row(e, now, "C46", "refresh")
         self.prev_tables = now
